@@ -5,7 +5,7 @@
 # line per property, removes the copy. Evidence goes to a scratch dir, never to /verif/evidence.
 set -u
 V=$(cd "$(dirname "$0")/.." && pwd)
-PATCH=$1; shift
+PATCH=$(readlink -f "$1"); shift
 PROPS="$@"
 [ -z "$PROPS" ] && PROPS=$($V/bin/goparcheck -list)
 S=$(mktemp -d /tmp/gpmut.XXXXXX)
